@@ -213,7 +213,7 @@ func (l *LookupEdgeAdjOut) Process(ctx context.Context, man gdbi.Manager, in gdb
 		for t := range in {
 			if t.IsSignal() {
 				queryChan <- gdbi.ElementLookup{Ref: t}
-			} else {
+			} else if !t.IsNull() {
 				queryChan <- gdbi.ElementLookup{
 					ID:  t.GetCurrent().To,
 					Ref: t,
@@ -292,7 +292,7 @@ func (l *LookupEdgeAdjIn) Process(ctx context.Context, man gdbi.Manager, in gdbi
 		for t := range in {
 			if t.IsSignal() {
 				queryChan <- gdbi.ElementLookup{Ref: t}
-			} else {
+			} else if !t.IsNull() {
 				queryChan <- gdbi.ElementLookup{
 					ID:  t.GetCurrent().From,
 					Ref: t,
@@ -406,6 +406,10 @@ func (f *Fields) Process(ctx context.Context, man gdbi.Manager, in gdbi.InPipe, 
 				out <- t
 				continue
 			}
+			if t.IsNull() {
+				out <- t
+				continue
+			}
 			o := jsonpath.SelectTravelerFields(t, f.keys...)
 			out <- o
 		}
@@ -471,6 +475,10 @@ func (r *Unwind) Process(ctx context.Context, man gdbi.Manager, in gdbi.InPipe, 
 		defer close(out)
 		for t := range in {
 			if t.IsSignal() {
+				out <- t
+				continue
+			}
+			if t.IsNull() {
 				out <- t
 				continue
 			}
@@ -543,7 +551,7 @@ func (h *HasLabel) Process(ctx context.Context, man gdbi.Manager, in gdbi.InPipe
 				out <- t
 				continue
 			}
-			if contains(labels, t.GetCurrent().Label) {
+			if !t.IsNull() && contains(labels, t.GetCurrent().Label) {
 				out <- t
 			}
 		}
